@@ -17,7 +17,8 @@ Run configurations (`Cfg`): chromosome orders, annotation, read-group mode, `--k
 `--read_assignments`, `--sqanti_output`, `carried`, and — docs/C07.md "More run configurations" — `--count_exons` (streams
 `exon`/`intron`/`exonG`/`intronG`, `dumpProfile`, `MStep.profile`), `--no_model_construction` (`gffStreams`, `modelUngrouped`,
 `modelGrouped`, `trStatPaths` empty), gzipped final outputs (`gzFinals`, `finalOf`, path class `finalGz`), `--high_memory`
-(`collectPost` does not read the save files back) and the options of the resume command line (`resumeCfg`).
+(`collectPost` does not read the save files back) and the options of the resume command line (`resumeCfg`); a reference that
+is gzip- but not bgzip-compressed (`Cfg.gzRef`, `refStage`, path class `refFa`: the copy unpacked into the output folder).
 
 `Variant` switches between the pinned behaviour and the repaired one (see docs/C07.md):
   flushBeforeLock  the `_collected` / `_processed` lock is written after the data it guards is on disk
@@ -28,6 +29,7 @@ Run configurations (`Cfg`): chromosome orders, annotation, read-group mode, `--k
   resetCounter     the process-wide alignment counter is reset at the start of *every* experiment, on every path
                    (off: only where reads are collected — a later experiment whose collection is skipped on resume
                    reports the unaligned reads of the earlier experiments as well)
+  refRewrite       a plain-gzip reference is unpacked by every run (off: `--resume` trusts the file a killed run left)
 -/
 namespace IsoVerif.Model.Resume
 
@@ -52,6 +54,7 @@ inductive Path where
   | readStat (c : Chr) | trStat (c : Chr) | processed (c : Chr)
   | final (s : Stream) | finalLin (s : Stream) | tpm (s : Stream)
   | finalGz (s : Stream)   -- the final file of a stream written through `gzip.open` (`<name>.gz`; default, off with `--no_gzip`)
+  | refFa                  -- `<output>/<reference name without .gz>`: the unpacked copy of a plain-gzip (not bgzip) reference
   deriving DecidableEq, Repr
 
 inductive Tok where
@@ -147,12 +150,14 @@ structure Variant where
   dropAtDumpPrefix : Bool    -- the `_processed` locks are dropped where they were written (next to the save files)
   flushSqanti : Bool         -- the SQANTI-like table of a chromosome is flushed before its `_processed` lock
   resetCounter : Bool        -- the alignment counter is reset at the start of every experiment, on every path
+  refRewrite : Bool          -- a plain-gzip reference is unpacked by *every* run, also by a resumed one (off: a resumed run
+                             -- trusts whatever file carries the name of the unpacked copy)
   deriving DecidableEq, Repr
 
 /-- the repaired code (the current /repo) -/
-def fixed : Variant := ⟨true, true, true, true, true, true, true, true⟩
+def fixed : Variant := ⟨true, true, true, true, true, true, true, true, true⟩
 /-- the code as pinned -/
-def pinned : Variant := ⟨false, false, false, false, false, true, true, true⟩
+def pinned : Variant := ⟨false, false, false, false, false, true, true, true, false⟩
 
 inductive RG where
   | none      -- no --read_group
@@ -178,6 +183,8 @@ structure Cfg where
   gzip : Bool := false        -- large final outputs go through `gzip.open` (the default; false = `--no_gzip`)
   highMemory : Bool := false  -- `--high_memory`: collect_reads keeps the assignments of every chromosome in memory and
                               -- does not read the save files back (no prepare_multimapper_dict)
+  gzRef : Bool := false       -- the reference is gzip- but not bgzip-compressed: DatasetProcessor.__init__ unpacks it into
+                              -- the output folder (`Path.refFa`) and works with the copy
   deriving Repr
 
 def aggPrinters (cfg : Cfg) : List Stream := .bed :: (if cfg.genedb then [.assign] else [])
@@ -253,6 +260,26 @@ def forceClean (v : Variant) (cfg : Cfg) (resume : Bool) : Stage := fun fs =>
 def paramsStage (resume : Bool) : Stage := fun _ =>
   (if resume then [Act.load .params] else []) ++ evs [.create .params, .commit .params .good]
 
+/-- DatasetProcessor.__init__ (after `.params` was saved, before the first experiment): pyfaidx refuses a reference that is
+    gzip- but not bgzip-compressed (`UnsupportedCompressionFormat`); it is unpacked into `<output>/<name>`
+    (`with open(…, "w") as outf: shutil.copyfileobj(gzip.open(reference, "rt"), outf)`: the file is empty after the open,
+    then holds the first 64-KiB pieces of the copy — `commit refFa stale`: a FASTA cut after its first sequence line is a
+    readable FASTA with fewer / shorter sequences —, and is complete at the close) and `Fasta(unpacked copy)` indexes
+    it: an empty file raises `FastaIndexingError` (`load`), anything else is read.
+    The code before the repair (`refRewrite` off) unpacks `if not os.path.exists(copy) or not args.resume`: a resumed run
+    works with whatever it finds under that name. -/
+def refStage (v : Variant) (cfg : Cfg) (resume : Bool) : Stage := fun fs =>
+  if !cfg.gzRef then []
+  else
+    (if !v.refRewrite && resume && fs.has .refFa then []
+     else evs [.create .refFa, .commit .refFa .stale, .commit .refFa .good])
+    ++ [Act.load .refFa]
+
+/-- the reference the per-chromosome work reads (chromosome list, sequences) is the right one: the user's file, or — with a
+    plain-gzip reference — a complete and correct unpacked copy.  (A copy that is not: the first pieces of a copy in
+    progress, or the copy of another reference; pyfaidx reads both without complaint, `Tok.stale`.) -/
+def refOK (cfg : Cfg) (fs : FS) : Bool := !cfg.gzRef || fs.good .refFa
+
 /-- DatasetProcessor.process_sample: read-group table split (read_groups.split_read_group_table) + its lock -/
 def rgStage (cfg : Cfg) (resume : Bool) : Stage := fun fs =>
   if resume && fs.has .rgLock then []
@@ -278,7 +305,8 @@ def collectChr (v : Variant) (cfg : Cfg) (resume sk : Bool) (c : Chr) : Stage :=
   else
     -- create_read_grouper: ReadTableGrouper loads the per-chromosome table (text: a truncated table is read silently)
     let grouper : List Act := if cfg.rg = .file then [Act.exist (.rgSplit c)] else []
-    let t := tokOf (cfg.rg != .file || fs.good (.rgSplit c))
+    -- the chromosome's sequence comes from the reference as the run finds it
+    let t := tokOf ((cfg.rg != .file || fs.good (.rgSplit c)) && refOK cfg fs)
     if resume && fs.has (.collected c) && fs.has (.groups c) && fs.has (.save c) then
       -- "Detected processed reads": groups (text), bamstat (pickle), save (terminated binary stream) are loaded
       grouper ++ [Act.load (.bamstat c), Act.load (.save c)]
@@ -332,7 +360,7 @@ def constructChr (v : Variant) (cfg : Cfg) (resume : Bool) (c : Chr) : Stage := 
     [Act.load (.multimap c), Act.load (.readStat c)] ++ (trStatPaths cfg c).map Act.load
   else
     -- the info file (binary, no terminator) is read silently when truncated: everything computed here depends on it
-    let t := tokOf (fs.good .info)
+    let t := tokOf (fs.good .info && refOK cfg fs)
     -- the streams flushed before the lock is written, and those that reach the disk only when their printer dies
     let early (s : Stream) : Bool := v.flushBeforeLock && (v.flushSqanti || s != .sq)
     let commits (b : Bool) : List Ev :=
@@ -447,7 +475,7 @@ def unalOK (v : Variant) (cfg : Cfg) (sk : Bool) : Bool :=
 /-- `sk` = the stage lock exists and the run is resumed; with `--read_assignments` there is no collection at all,
     the number of unaligned reads is never counted (0 in every run) and nothing is cleaned up -/
 def stages (v : Variant) (cfg : Cfg) (ord : List Path) (resume sk : Bool) : List Stage :=
-  [paramsStage resume, rgStage cfg resume, collectPre cfg resume (sk || cfg.fromSaves)]
+  [paramsStage resume, refStage v cfg resume, rgStage cfg resume, collectPre cfg resume (sk || cfg.fromSaves)]
   ++ cfg.chrs.map (collectChr v cfg resume (sk || cfg.fromSaves))
   ++ [collectPost cfg (sk || cfg.fromSaves), constructPre cfg]
   ++ cfg.chrs.map (constructChr v cfg resume)
@@ -487,10 +515,16 @@ def crashFS (v : Variant) (cfg : Cfg) (ord : List Path) (k : Nat) : FS := crashF
 def verdict (v : Variant) (cfg : Cfg) (ord ord' : List Path) (k : Nat) : Verdict := verdictFrom v cfg ord ord' FS.empty k
 
 /-- what `--resume` may change: `.params` gives back every option of the killed run, then the options found on the resume
-    command line override them (isoquant.py load_previous_run).  `--high_memory` is *always* overridden (its default in
-    the resume parser is False, not SUPPRESS: a resumed run is a `--high_memory` run iff the flag is repeated), `--keep_tmp`
-    only when given (it can be switched on, not off); `--threads` is the subject of Model/ResumePool.lean -/
-def resumeCfg (cfg : Cfg) (hm kt : Bool) : Cfg := { cfg with highMemory := hm, keepTmp := cfg.keepTmp || kt }
+    command line override them (isoquant.py load_previous_run).  The resume parser declares `--threads`, `--debug`,
+    `--keep_tmp` and (repaired code) `--high_memory` with `default=argparse.SUPPRESS`: an option that is not repeated keeps
+    the value of the killed run; `--high_memory` / `--keep_tmp` can be switched on by the resume command line, never off;
+    `--threads` is the subject of Model/ResumePool.lean -/
+def resumeCfg (cfg : Cfg) (hm kt : Bool) : Cfg :=
+  { cfg with highMemory := cfg.highMemory || hm, keepTmp := cfg.keepTmp || kt }
+
+/-- the code before the repair: `--high_memory` had `default=False` in the resume parser and was therefore *always*
+    overridden — a resumed run was a `--high_memory` run iff the flag was repeated, whatever the killed run had -/
+def resumeCfgOrig (cfg : Cfg) (hm kt : Bool) : Cfg := { cfg with highMemory := hm, keepTmp := cfg.keepTmp || kt }
 
 /-- `verdictFrom` with the resumed run under the options of its own command line (`hm` = `--resume --high_memory`,
     `kt` = `--resume --keep_tmp`); the reference is still the uninterrupted run with the options of the killed run -/
@@ -502,7 +536,7 @@ def verdictFromOpts (v : Variant) (cfg : Cfg) (ord ord' : List Path) (hm kt : Bo
 
 /-- the paths a run of configuration `cfg` can touch (used to print file systems) -/
 def allPaths (cfg : Cfg) : List Path :=
-  [.params, .rgLock, .info, .lock]
+  [.params, .refFa, .rgLock, .info, .lock]
   ++ cfg.chrs.flatMap (fun c =>
       [.rgSplit c, .save c, .groups c, .bamstat c, .collected c, .multimap c, .processed c] ++ chrOutputs cfg c)
   ++ finalPaths cfg
